@@ -59,7 +59,7 @@ def generate(rng, tier, idx):
         round2 = {'edits': [e for e in GU.gen_edits(rng, info, rng.choice([0, 1, 2])) if not (e['m'] == 'delete' and e['p'] in info['dirs'])],
                   'force': rng.random() < 0.6}
     return {'prop': ID, 'order_key': '%016x' % rng.getrandbits(64), 'tree': g['tree'], 'manifests': g['manifests'],
-            'round2': round2,
+            'round2': round2, 'cli_cmd': rng.choice(['update', 'update', 'create']),     # `create` over an existing tree, too
             'edits': edits, 'orig_signed': rng.random() < 0.6, 'opt': opt, 'keyid': keyid,
             'top': top, 'watermark': rng.choice([None, None, 0, 100000]) if top == 'Manifest' else rng.choice([None, 0, 100000, 100000]),
             'api': rng.choice(['lib', 'lib', 'cli']) if top == 'Manifest' else 'lib', 'force': rng.random() < 0.5,
@@ -100,7 +100,7 @@ def run_world(sc, sign, keyid, fault, orig_signed):
                 with seam:
                     seam.begin_op(0)
                     if sc.get('api') == 'cli':
-                        argv = ['update', '-H', ' '.join(sc['hashes'])]
+                        argv = [sc.get('cli_cmd', 'update'), '-H', ' '.join(sc['hashes'])]
                         if sign is True:
                             argv.append('-s')
                         elif sign is False:
